@@ -101,8 +101,12 @@ def _jsonable(x):
         return repr(x)
 
 
+def _replay_root():
+    return os.environ.get("VERIF_REPLAY_DIR") or os.path.join(ROOT, "replays")      # scratch runs (parallel sweeps) write elsewhere
+
+
 def write_replay(prop, name, payload):
-    d = os.path.join(ROOT, "replays", prop)
+    d = os.path.join(_replay_root(), prop)
     os.makedirs(d, exist_ok=True)
     safe = "".join(ch if ch.isalnum() or ch in "-_." else "_" for ch in name)[:120]
     p = os.path.join(d, safe + ".json")
@@ -175,7 +179,7 @@ def finish(res, tier, seed, level, t0, checker_cmd, explanation=""):
     # ---- report (stale replay files of earlier runs are removed first)
     import glob
     if not os.environ.get("VERIF_KEEP_REPLAYS"):
-        for f in glob.glob(os.path.join(ROOT, "replays", prop, "*.json")):
+        for f in glob.glob(os.path.join(_replay_root(), prop, "*.json")):
             os.remove(f)
     printed = set()
     for f, item in known_hits:
